@@ -1,1 +1,6 @@
-/-! C10 — property theorems (none yet). -/
+import Req.Client.Retry
+import Req.Client.Attempt
+import Req.Client.Backoff
+/-! C10 — property theorems (in progress). -/
+namespace Req.Props.C10
+end Req.Props.C10
